@@ -410,8 +410,8 @@ Qed.
 
 (* ------------------------------------------------------------------------------------------ *)
 (* (8) Split DWARF.  FilterUnitSection::new_split builds the dependency map with the same FilterUnit::read_entry;
-   ConvertSplitUnitSection::new_with_filter reserves ALL reachable offsets for the first unit of the .dwo
-   section instead of slicing them per unit.  When the .dwo section holds one unit (the DWARF 5 / GNU split
+   ConvertSplitUnitSection::new_with_filter converts the first unit of the .dwo section and reserves the
+   reachable offsets lying in it.  When the .dwo section holds one unit (the DWARF 5 / GNU split
    layout) the DIEs emitted are those of the ordinary path, so every theorem above applies to it.  NOT modelled:
    a .dwo section with several units, the skeleton's own attributes / line program / copy_relocated_attributes. *)
 Theorem split_single_unit : forall rf (dbg : bool) (req : N -> bool) (u : unitd),
@@ -489,8 +489,8 @@ Proof. split; vm_compute; reflexivity. Qed.
 
 (* ------------------------------------------------------------------------------------------ *)
 (* (10) Split-unit filters on a .dwo section with ANY number of units (DWARF 5 and GNU DWARF 4 split units take
-   the same path).  ConvertSplitUnitSection::new_with_filter converts the FIRST unit and reserves ALL reachable
-   offsets.  For every well-formed section u0 :: us: the tolerant split conversion succeeds and emits exactly the
+   the same path).  ConvertSplitUnitSection::new_with_filter converts the FIRST unit and (as repaired)
+   reserves the reachable offsets lying in it.  For every well-formed section u0 :: us: the tolerant split conversion succeeds and emits exactly the
    reserved DIEs that lie in u0, and a strict split conversion that succeeds emits the same list. *)
 Theorem split_units : forall rf (dbg : bool) (req : N -> bool) (u0 : unitd) (us : list unitd),
   wf_offsets (u0 :: us) -> wf_layout (u0 :: us) ->
@@ -501,33 +501,45 @@ Theorem split_units : forall rf (dbg : bool) (req : N -> bool) (u0 : unitd) (us 
     (forall out', convert_split_filtered rf dbg req (u0 :: us) = Ok out' -> out' = out).
 Proof. exact split_units_full. Qed.
 
-(* No dangling reference in the split path, EXCEPT the known class (known_findings.txt, C19 split): every
-   reference the strict split conversion resolves for an emitted DIE names the root DIE, an emitted DIE, or
-   `split_foreign`: a reserved DIE of ANOTHER unit of the .dwo section - reserved by new_with_offsets, never added,
-   so that write() fails with InvalidReference although the conversion succeeded.  Full statement (false for
-   gimli as it is): the third disjunct absent. *)
-Theorem split_refs_partial : forall (dbg : bool) (req : N -> bool) (u0 : unitd) (us : list unitd) S out,
+(* No dangling reference in the split path (full statement; the split filter was repaired in /repo FIXCOMMIT:
+   only the offsets of the converted unit are reserved).  Every reference the strict split conversion resolves
+   for an emitted DIE names the root DIE or an emitted DIE. *)
+Theorem split_refs : forall (dbg : bool) (req : N -> bool) (u0 : unitd) (us : list unitd) out,
   wf_offsets (u0 :: us) -> wf_layout (u0 :: us) ->
-  reserved filter_refs dbg req (u0 :: us) = Ok S ->
   convert_split_filtered filter_refs dbg req (u0 :: us) = Ok out ->
   forall e par s y, In (e, par) (unit_pairs u0) -> In (sec u0 (e_off e)) (map fst out) ->
     In s (e_sites e) -> In y (conv_refs u0 s) ->
-    y = root_off u0 \/ In y (map fst out) \/ split_foreign u0 S y = true.
+    y = root_off u0 \/ In y (map fst out).
 Proof. exact split_refs_full. Qed.
 
-(* the known class is inhabited: two units in the .dwo section, a required variable of the first whose DW_AT_type
-   is a DW_FORM_ref_addr reference to a struct of the second.  The filtered split conversion succeeds in both
-   build modes and holds a reference to the never-emitted struct; the unfiltered conversion of the first unit
-   alone (ConvertUnit::convert_split) reports InvalidDebugInfoRef. *)
-Theorem split_refs_refuted :
+(* A reference from a reserved DIE of the first unit to a reachable DIE of ANOTHER unit of the .dwo section
+   (`split_foreign`) can only be a .debug_info-form reference (DW_FORM_ref_addr, DW_OP_call_ref,
+   DW_OP_implicit_pointer, DW_OP_GNU_variable_value); its conversion fails with InvalidDebugInfoRef - the error the
+   unfiltered ConvertUnit::convert_split reports for it - and the strict split conversion does not succeed, in
+   both build modes: no write::Dwarf holding a reference to a DIE that is never added is produced. *)
+Theorem split_foreign_ref_is_error : forall (dbg : bool) (req : N -> bool) (u0 : unitd) (us : list unitd) S,
+  wf_offsets (u0 :: us) -> wf_layout (u0 :: us) ->
+  reserved filter_refs dbg req (u0 :: us) = Ok S ->
+  forall e par s y, In (e, par) (unit_pairs u0) -> In (sec u0 (e_off e)) S ->
+    In s (e_sites e) -> In y (conv_refs u0 s) -> split_foreign u0 S y = true ->
+    site_unit_relative s = false /\
+    conv_site u0 (root_off u0 :: own_offsets u0 S) s = Err CInvalidDebugInfoRef /\
+    forall out, convert_split_filtered filter_refs dbg req (u0 :: us) <> Ok out.
+Proof. exact split_foreign_ref_is_error_full. Qed.
+
+(* the input of the repaired defect (fixed: FIXCOMMIT): two units in the .dwo section, a required variable of the
+   first whose DW_AT_type is a DW_FORM_ref_addr reference to a struct of the second.  The strict filtered split
+   conversion now reports InvalidDebugInfoRef like the unfiltered conversion of the first unit alone; the tolerant
+   loop skips the attribute and emits the variable. *)
+Example split_foreign_ex :
   wf_offsets sx_units /\ wf_layout sx_units /\
   reserved filter_refs true (fun x => x =? 21) sx_units = Ok [21; 121; 131] /\
-  convert_split_filtered filter_refs true (fun x => x =? 21) sx_units = Ok [(21, 11)] /\
-  convert_split_filtered filter_refs false (fun x => x =? 21) sx_units = Ok [(21, 11)] /\
-  In 131 (conv_refs sx_u0 {| s_car := CAttrInfo; s_val := 131 |}) /\
   split_foreign sx_u0 [21; 121; 131] 131 = true /\
+  convert_split_filtered filter_refs true (fun x => x =? 21) sx_units = Err CInvalidDebugInfoRef /\
+  convert_split_filtered filter_refs false (fun x => x =? 21) sx_units = Err CInvalidDebugInfoRef /\
+  convert_split_filtered_tol filter_refs true (fun x => x =? 21) sx_units = Ok [(21, 11)] /\
   convert_all [sx_u0] = Err CInvalidDebugInfoRef.
-Proof. exact split_dangling_witness. Qed.
+Proof. exact split_foreign_example. Qed.
 
 (* pins *)
 Check worklist_correct : forall d : deps,
@@ -571,3 +583,9 @@ Check split_units : forall rf (dbg : bool) (req : N -> bool) (u0 : unitd) (us : 
     convert_split_filtered_tol rf dbg req (u0 :: us) = Ok out /\
     (forall x, In x (map fst out) <-> In x S /\ in_unit u0 x = true) /\
     (forall out', convert_split_filtered rf dbg req (u0 :: us) = Ok out' -> out' = out).
+Check split_refs : forall (dbg : bool) (req : N -> bool) (u0 : unitd) (us : list unitd) out,
+  wf_offsets (u0 :: us) -> wf_layout (u0 :: us) ->
+  convert_split_filtered filter_refs dbg req (u0 :: us) = Ok out ->
+  forall e par s y, In (e, par) (unit_pairs u0) -> In (sec u0 (e_off e)) (map fst out) ->
+    In s (e_sites e) -> In y (conv_refs u0 s) ->
+    y = root_off u0 \/ In y (map fst out).
